@@ -1,9 +1,9 @@
 (* C07 - Biproportional result meets both marginals and is divisor-consistent.
    Property theorems only.  Model: Model/Biprop.v; proofs: Proofs/Biprop_proofs.v.
 
-   Level of the claim: translation validation.  Tie-and-transfer itself is not proved to reach a
-   fixed point (Pukelsheim's termination argument is out of reach here); instead EVERY output of
-   BiproportionalEvaluator.evaluate is validated by the certificate checker [cert_ok], which is
+   Level of the claim: proof about a model of the whole evaluate (Model/BipropLoop.v: partial correctness, C07_evaluate_partial_correct;
+   termination, C07_terminates; the opening refusal, C07_no_votes_refusal), tied to the code by correspondence; besides,
+   EVERY output of BiproportionalEvaluator.evaluate is validated by the certificate checker [cert_ok], which is
    proved below to be sound and complete for the declarative statement [biprop_spec]:
 
      district totals = district apportionment, party totals = party apportionment, no seat without
@@ -14,10 +14,10 @@
    ... of Model/Divisor.v, tied to votelib/component/divisor.py by Props/GenTie_Divisor.v).  The
    multipliers come from the implementation's own state (verif hook) or from an exact solver in the
    harness; either way they are only a certificate. *)
-From Coq Require Import ZArith QArith List Bool Lia.
+From Coq Require Import ZArith QArith List Bool Lia Lqa.
 From VL Require Import Prelude.PyDict Model.Divisor Model.HighestAverages Model.Biprop Model.BipropLoop
      Proofs.Dict_proofs Proofs.Divisor_proofs Proofs.Biprop_proofs Proofs.Biprop_steps Proofs.BipropRow_proofs
-     Proofs.BipropLoop_proofs Proofs.BipropInit_proofs Proofs.BipropProgress_proofs.
+     Proofs.BipropLoop_proofs Proofs.BipropInit_proofs Proofs.BipropProgress_proofs Proofs.BipropTerm_proofs Proofs.BipropFlow_proofs Proofs.BipropRefusal_proofs Proofs.BipropNoKey_proofs.
 Import ListNotations.
 Open Scope Z_scope.
 
@@ -103,11 +103,29 @@ Proof. exact cut_sound. Qed.
 Theorem C07_matrix_ok_reflect : forall ds ps sup r c m,
   matrix_ok ds ps sup r c m = true <-> matrix_spec ds ps sup r c m.
 Proof. exact matrix_ok_iff. Qed.
-(* completeness of the reference (it never answers FeasUnknown) is not proved: it is observed per
-   instance - an Unknown answer makes the check fail as a broken harness obligation *)
+(* completeness of the reference (wave 6): with duplicate-free index lists and non-negative marginals it never answers
+   FeasUnknown - labels closed after |rows| + |columns| + 1 sweeps, predecessor labels ranked so that the augmenting path is
+   walked within its fuel, closed labels without spare demand violate Hall's condition, one unit of flow per round
+   (Proofs/BipropFlow_proofs.v).  The harness still fails the check on an Unknown answer (there is none) *)
 Definition C07_feasible_ref_complete_full_statement : Prop := forall ds ps sup r c,
   NoDup ds -> NoDup ps -> (forall i, In i ds -> 0 <= r i) -> (forall j, In j ps -> 0 <= c j) ->
   feasible_ref ds ps sup r c <> FeasUnknown.
+Theorem C07_feasible_ref_complete : C07_feasible_ref_complete_full_statement.
+Proof. intros ds ps sup r c Hds Hps Hr Hc. exact (feasible_ref_complete ds ps sup r c Hds Hps Hr Hc). Qed.
+(* hence the reference DECIDES whether a seat matrix with the marginals and the support exists *)
+Theorem C07_feasible_ref_decides : forall ds ps sup r c,
+  NoDup ds -> NoDup ps -> (forall i, In i ds -> 0 <= r i) -> (forall j, In j ps -> 0 <= c j) ->
+  ((exists m, matrix_spec ds ps sup r c m) <-> exists m, feasible_ref ds ps sup r c = FeasMatrix m) /\
+  ((forall m, ~ matrix_spec ds ps sup r c m) <-> exists cut, feasible_ref ds ps sup r c = FeasCut cut).
+Proof.
+  intros ds ps sup r c Hds Hps Hr Hc.
+  pose proof (feasible_ref_sound ds ps sup r c) as S. pose proof (feasible_ref_complete ds ps sup r c Hds Hps Hr Hc) as K.
+  destruct (feasible_ref ds ps sup r c) as [m|cut|]; [| |congruence].
+  - split; [split; [intros _; exists m; reflexivity|intros _; exists m; exact S]|].
+    split; [intros H; exfalso; apply (H m S)|intros (cut & E); discriminate].
+  - split; [split; [intros (m & H); exfalso; apply (S m H)|intros (m & E); discriminate]|].
+    split; [intros _; exists cut; reflexivity|intros _; exact S].
+Qed.
 
 (* ---- a certified row is a divisor-method apportionment (link to C01) ---- *)
 (* min-max form, the statement of C01_optimal: in every district, with the party multipliers as vote
@@ -157,10 +175,11 @@ Qed.
    tied districts), _initial_party_coefs, _districts_unsat, _calc_quots, _labeled, the path walk of _augment_result,
    _adj_coef and the multiplier update, iterated on explicit fuel.  [q] is signpost_q, [d] the divisor function; the
    evaluator knows q for d_hondt (0) and sainte_lague (1/2), i.e. d s = k (s + 1 - q) with k = 1 / k = 2.
-   Hypotheses: the vote matrix is a dict of dicts (keys without repetition) of non-negative integers, one of them
-   positive; n >= 0; [dorder] (the iteration order of the frozenset of district names, which is where Python's set
-   order reaches the algorithm) lists every district.  NOT claimed: termination - running out of fuel (and every
-   refusal: BP_refused, BP_zero_division, BP_key_error, BP_value_error, a tied marginal) is a different constructor. *)
+   Hypotheses: the vote matrix is a dict of dicts (keys without repetition) of non-negative integers;
+   n >= 0; [dorder] (the iteration order of the frozenset of district names, which is where Python's set
+   order reaches the algorithm) lists every district.  Running out of fuel (and every refusal: BP_no_votes, BP_refused,
+   BP_zero_division, BP_key_error, BP_value_error, a tied marginal) is a different constructor; that the fuel of 7' (e)
+   is never exhausted is the termination theorem C07_terminates. *)
 
 (* 1. the loop invariant (party totals, no seat without votes, positive multipliers, every cell between its
       signposts s - q <= votes x rho x gamma <= s + 1 - q) is kept by ONE iteration, whatever it does *)
@@ -190,42 +209,138 @@ Theorem C07_initial_state_invariant : forall d q k votes n s,
   exists pseats, HighestAverages.evaluate d (party_totals votes) n [] [] = HA_ok pseats None /\ BInv q votes pseats s.
 Proof. intros d q k votes n s Hq0 Hq1 Hk Hd Hwf Hv Hs Hn. exact (binit_inv d q k Hq0 Hq1 Hk Hd votes Hwf Hv Hs n Hn s). Qed.
 
-(* 4. the whole evaluate, district seats given (a dictionary, or whatever a custom apportioner returned) *)
+(* 4. the whole evaluate, district seats given (a dictionary, or whatever a custom apportioner returned).  The code as it
+      stands ([strict] = true: an election without a single vote is refused, fixes/C07-all-zero.diff) needs no hypothesis
+      about positive votes any more *)
 Theorem C07_evaluate_partial_correct : forall d q k votes n tgt dorder fuel res rho gamma,
   (0 <= q)%Q -> (q < 1)%Q -> (0 < k)%Q -> (forall z, d z == k * (inject_Z z + 1 - q))%Q ->
-  wf_votes votes -> (forall i j, 0 <= mget votes i j) -> (exists i j, 0 < mget votes i j) -> 0 <= n ->
+  wf_votes votes -> (forall i j, 0 <= mget votes i j) -> 0 <= n ->
   incl (districts votes) dorder ->
-  evaluate_core d q votes tgt dorder n fuel = BP_ok res rho gamma ->
+  evaluate_core d q votes tgt dorder true n fuel = BP_ok res rho gamma ->
   exists pseats, ha_marginal d (party_totals votes) n = Some pseats /\
     cert_ok d (districts votes) (parties votes) votes tgt pseats res (scale_k k rho) gamma = true /\
     biprop_spec d (districts votes) (parties votes) votes tgt pseats res.
 Proof.
-  intros d q k votes n tgt dorder fuel res rho gamma Hq0 Hq1 Hk Hd Hwf Hv Hs Hn Hdo H.
-  destruct (evaluate_core_partial d q k Hq0 Hq1 Hk Hd votes Hwf Hv Hs n Hn dorder Hdo tgt fuel res rho gamma H) as (pseats & Hp & Hc).
+  intros d q k votes n tgt dorder fuel res rho gamma Hq0 Hq1 Hk Hd Hwf Hv Hn Hdo H.
+  destruct (evaluate_core_partial d q k Hq0 Hq1 Hk Hd votes Hwf Hv n Hn dorder Hdo true tgt fuel res rho gamma (or_introl eq_refl) H) as (pseats & Hp & Hc).
   exists pseats. split; [exact Hp|]. split; [exact Hc|]. exact (proj2 (C07_cert_sound _ _ _ _ _ _ _ _ _ Hc)).
 Qed.
 
 (* 5. ... and seats given as a total: the districts are apportioned by the same HighestAverages model *)
 Theorem C07_evaluate_total_partial_correct : forall d q k votes n dorder fuel res rho gamma,
   (0 <= q)%Q -> (q < 1)%Q -> (0 < k)%Q -> (forall z, d z == k * (inject_Z z + 1 - q))%Q ->
-  wf_votes votes -> (forall i j, 0 <= mget votes i j) -> (exists i j, 0 < mget votes i j) -> 0 <= n ->
+  wf_votes votes -> (forall i j, 0 <= mget votes i j) -> 0 <= n ->
   incl (districts votes) dorder ->
-  evaluate_total d q votes n dorder fuel = BP_ok res rho gamma ->
+  evaluate_total d q votes true n dorder fuel = BP_ok res rho gamma ->
   exists pseats dseats, ha_marginal d (party_totals votes) n = Some pseats /\
     ha_marginal d (district_totals votes) n = Some dseats /\
     cert_ok d (districts votes) (parties votes) votes dseats pseats res (scale_k k rho) gamma = true /\
     biprop_spec d (districts votes) (parties votes) votes dseats pseats res.
 Proof.
-  intros d q k votes n dorder fuel res rho gamma Hq0 Hq1 Hk Hd Hwf Hv Hs Hn Hdo H.
-  destruct (evaluate_total_partial d q k Hq0 Hq1 Hk Hd votes Hwf Hv Hs n Hn dorder Hdo fuel res rho gamma H) as (pseats & dseats & Hp & Hds & Hc).
+  intros d q k votes n dorder fuel res rho gamma Hq0 Hq1 Hk Hd Hwf Hv Hn Hdo H.
+  destruct (evaluate_total_partial d q k Hq0 Hq1 Hk Hd votes Hwf Hv n Hn dorder Hdo true fuel res rho gamma (or_introl eq_refl) H) as (pseats & dseats & Hp & Hds & Hc).
   exists pseats, dseats. split; [exact Hp|]. split; [exact Hds|]. split; [exact Hc|]. exact (proj2 (C07_cert_sound _ _ _ _ _ _ _ _ _ Hc)).
+Qed.
+
+(* 5'. the pinned tree ([strict] = false: no test for an empty election) satisfies the same under the old hypothesis that
+       some vote is positive; C07_all_zero_refuted below shows that it needs it *)
+Theorem C07_evaluate_pinned_partial_correct : forall d q k votes n tgt dorder fuel res rho gamma,
+  (0 <= q)%Q -> (q < 1)%Q -> (0 < k)%Q -> (forall z, d z == k * (inject_Z z + 1 - q))%Q ->
+  wf_votes votes -> (forall i j, 0 <= mget votes i j) -> (exists i j, 0 < mget votes i j) -> 0 <= n ->
+  incl (districts votes) dorder ->
+  evaluate_core d q votes tgt dorder false n fuel = BP_ok res rho gamma ->
+  exists pseats, ha_marginal d (party_totals votes) n = Some pseats /\
+    cert_ok d (districts votes) (parties votes) votes tgt pseats res (scale_k k rho) gamma = true.
+Proof.
+  intros d q k votes n tgt dorder fuel res rho gamma Hq0 Hq1 Hk Hd Hwf Hv Hs Hn Hdo H.
+  exact (evaluate_core_partial d q k Hq0 Hq1 Hk Hd votes Hwf Hv n Hn dorder Hdo false tgt fuel res rho gamma (or_intror Hs) H).
+Qed.
+
+(* 5''. the refusal that opens evaluate is exactly "no vote is cast" and it is justified: then no seat matrix has the party
+        marginal and empty cells where there are no votes, whatever the district seats (the property's "refuses only when
+        no seat matrix with those marginals and zero cells exists") *)
+Theorem C07_no_votes_refusal : forall d q votes tgt dorder n fuel,
+  (evaluate_core d q votes tgt dorder true n fuel = BP_no_votes <-> has_votes votes = false) /\
+  (evaluate_total d q votes true n dorder fuel = BP_no_votes <-> has_votes votes = false) /\
+  (wf_votes votes -> (has_votes votes = false <-> forall i j, mget votes i j = 0)).
+Proof.
+  intros d q votes tgt dorder n fuel. split; [apply evaluate_core_no_votes|]. split; [apply evaluate_total_no_votes|].
+  intros Hwf. split; [apply has_votes_false|]. intros Hz. destruct (has_votes votes) eqn:E; [|reflexivity].
+  destruct (has_votes_true votes Hwf E) as (i & j & H). exfalso. apply H, Hz.
+Qed.
+Theorem C07_no_votes_refusal_justified : forall d q k votes n pseats,
+  (0 <= q)%Q -> (q < 1)%Q -> (0 < k)%Q -> (forall z, d z == k * (inject_Z z + 1 - q))%Q ->
+  (forall i j, 0 <= mget votes i j) -> 0 <= n ->
+  has_votes votes = false -> ha_marginal d (party_totals votes) n = Some pseats ->
+  forall dseats res, ~ biprop_spec d (districts votes) (parties votes) votes dseats pseats res.
+Proof.
+  intros d q k votes n pseats Hq0 Hq1 Hk Hd Hv Hn. exact (no_votes_infeasible d q k Hq1 Hk Hd votes Hv n Hn pseats).
+Qed.
+
+(* 5c. THE OTHER REFUSAL SITE - VotingSystemError "invalid adjustment coefficient" - IS JUSTIFIED AS WELL, for the two rounding
+       rules the evaluator supports (signpost_q = 0: D'Hondt, 1/2: Sainte-Lague): whenever the whole-loop model answers
+       [BP_refused a], no seat matrix with the district seats, the party seats (the tie-free HighestAverages answer) and
+       empty cells where there are no votes exists - with or without multipliers.  [dorder] lists exactly the districts
+       (the target dictionary has no foreign key).  Proof: with closed labels the coefficient is < 1 (a candidate equal to
+       1 is a tied cell the labelling search would have followed), so the refused coefficient is 0; then the labelled
+       districts hold more seats than they are due, all in the columns of the labelled parties, which have no votes
+       elsewhere: Hall's condition fails (Proofs/BipropRefusal_proofs.v).  Together with C07_no_votes_refusal_justified this is
+       the property's "refuses with a voting-system error only when no seat matrix with those marginals and zero cells
+       exists" for ALL inputs of the model *)
+Theorem C07_refusal_justified : forall d q k votes n tgt dorder fuel a,
+  (0 <= q)%Q -> (q < 1)%Q -> (q == 0 \/ q == 1 # 2)%Q -> (0 < k)%Q -> (forall z, d z == k * (inject_Z z + 1 - q))%Q ->
+  wf_votes votes -> (forall i j, 0 <= mget votes i j) -> 0 <= n ->
+  NoDup dorder -> incl (districts votes) dorder -> incl dorder (districts votes) ->
+  evaluate_core d q votes tgt dorder true n fuel = BP_refused a ->
+  exists pseats, ha_marginal d (party_totals votes) n = Some pseats /\
+    (forall M, ~ matrix_spec (districts votes) (parties votes) (fun i j => 0 <? mget votes i j)
+                             (fun i => dget_or tgt i 0) (fun j => dget_or pseats j 0) M) /\
+    (forall res, ~ biprop_spec d (districts votes) (parties votes) votes tgt pseats res).
+Proof.
+  intros d q k votes n tgt dorder fuel a Hq0 Hq1 Hq Hk Hd Hwf Hv Hn Hdo Hdo1 Hdo2 H.
+  destruct (evaluate_core_refused d q k Hq0 Hq1 Hq Hk Hd votes Hwf Hv n Hn dorder Hdo Hdo1 Hdo2 true tgt fuel a (or_introl eq_refl) H) as (pseats & Hp & Hinf).
+  exists pseats. split; [exact Hp|]. split; [exact Hinf|].
+  intros res S. apply (Hinf res). apply (spec_matrix d votes tgt pseats res Hv S).
+Qed.
+Theorem C07_total_refusal_justified : forall d q k votes n dorder fuel a,
+  (0 <= q)%Q -> (q < 1)%Q -> (q == 0 \/ q == 1 # 2)%Q -> (0 < k)%Q -> (forall z, d z == k * (inject_Z z + 1 - q))%Q ->
+  wf_votes votes -> (forall i j, 0 <= mget votes i j) -> 0 <= n ->
+  NoDup dorder -> incl (districts votes) dorder -> incl dorder (districts votes) ->
+  evaluate_total d q votes true n dorder fuel = BP_refused a ->
+  exists pseats dseats, ha_marginal d (party_totals votes) n = Some pseats /\
+    ha_marginal d (district_totals votes) n = Some dseats /\
+    (forall M, ~ matrix_spec (districts votes) (parties votes) (fun i j => 0 <? mget votes i j)
+                             (fun i => dget_or dseats i 0) (fun j => dget_or pseats j 0) M) /\
+    (forall res, ~ biprop_spec d (districts votes) (parties votes) votes dseats pseats res).
+Proof.
+  intros d q k votes n dorder fuel a Hq0 Hq1 Hq Hk Hd Hwf Hv Hn Hdo Hdo1 Hdo2 H.
+  destruct (evaluate_total_refused d q k Hq0 Hq1 Hq Hk Hd votes Hwf Hv n Hn dorder Hdo Hdo1 Hdo2 true fuel a (or_introl eq_refl) H) as (pseats & dseats & Hp & Hds & Hinf).
+  exists pseats, dseats. split; [exact Hp|]. split; [exact Hds|]. split; [exact Hinf|].
+  intros res S. apply (Hinf res). apply (spec_matrix d votes dseats pseats res Hv S).
+Qed.
+(* the step-level statement: from ANY state satisfying the loop invariant the refused coefficient is 0 (never >= 1) and the
+   refusal is justified *)
+Theorem C07_step_refusal_justified : forall q votes pseats tgt dorder s a,
+  (0 <= q)%Q -> (q < 1)%Q -> (q == 0 \/ q == 1 # 2)%Q -> wf_votes votes -> (forall i j, 0 <= mget votes i j) ->
+  NoDup dorder -> incl (districts votes) dorder -> incl dorder (districts votes) ->
+  BInv q votes pseats s -> bstep q votes tgt dorder s = Stop (BP_refused a) ->
+  (a == 0)%Q /\
+  forall M, ~ matrix_spec (districts votes) (parties votes) (fun i j => 0 <? mget votes i j)
+                          (fun i => dget_or tgt i 0) (fun j => dget_or pseats j 0) M.
+Proof.
+  intros q votes pseats tgt dorder s a Hq0 Hq1 Hq Hwf Hv Hdo Hdo1 Hdo2 I H. split.
+  - destruct (bstep_refused q votes tgt dorder s a H) as (_ & LD & LP & El & Hnu & Ha & Hc).
+    assert (Hov : NoDup (snd (unsat dorder (b_res s) tgt))) by (unfold unsat; cbn [snd]; apply NoDup_filter, Hdo).
+    pose proof (coef_lt_1 q Hq0 Hq1 Hq votes Hwf pseats s _ _ LD LP a I Hov El Hnu Ha) as Hlt.
+    apply orb_true_iff in Hc. destruct Hc as [Hc|Hc]; [apply Qeq_bool_iff, Hc|apply Qle_bool_iff in Hc; exfalso; apply (Qlt_not_le _ _ Hlt Hc)].
+  - exact (step_refused_infeasible q Hq0 Hq1 Hq votes Hwf Hv pseats tgt dorder Hdo Hdo1 Hdo2 s a I H).
 Qed.
 
 (* 6. the two configurations the evaluator supports *)
 Theorem C07_d_hondt_partial_correct : forall votes n dorder fuel res rho gamma,
-  wf_votes votes -> (forall i j, 0 <= mget votes i j) -> (exists i j, 0 < mget votes i j) -> 0 <= n ->
+  wf_votes votes -> (forall i j, 0 <= mget votes i j) -> 0 <= n ->
   incl (districts votes) dorder ->
-  evaluate_total d_hondt 0 votes n dorder fuel = BP_ok res rho gamma ->
+  evaluate_total d_hondt 0 votes true n dorder fuel = BP_ok res rho gamma ->
   exists pseats dseats, ha_marginal d_hondt (party_totals votes) n = Some pseats /\
     ha_marginal d_hondt (district_totals votes) n = Some dseats /\
     cert_ok d_hondt (districts votes) (parties votes) votes dseats pseats res (scale_k 1 rho) gamma = true /\
@@ -235,9 +350,9 @@ Proof.
     [apply Qle_refl|reflexivity|reflexivity|exact d_hondt_signposts].
 Qed.
 Theorem C07_sainte_lague_partial_correct : forall votes n dorder fuel res rho gamma,
-  wf_votes votes -> (forall i j, 0 <= mget votes i j) -> (exists i j, 0 < mget votes i j) -> 0 <= n ->
+  wf_votes votes -> (forall i j, 0 <= mget votes i j) -> 0 <= n ->
   incl (districts votes) dorder ->
-  evaluate_total sainte_lague (1 # 2) votes n dorder fuel = BP_ok res rho gamma ->
+  evaluate_total sainte_lague (1 # 2) votes true n dorder fuel = BP_ok res rho gamma ->
   exists pseats dseats, ha_marginal sainte_lague (party_totals votes) n = Some pseats /\
     ha_marginal sainte_lague (district_totals votes) n = Some dseats /\
     cert_ok sainte_lague (districts votes) (parties votes) votes dseats pseats res (scale_k 2 rho) gamma = true /\
@@ -247,10 +362,10 @@ Proof.
     [discriminate|reflexivity|reflexivity|exact sainte_lague_signposts].
 Qed.
 
-(* 7. a progress measure (NOT a termination proof): the flaw count - the sum over the districts of |seats held - seats due| -
+(* 7. the progress measure of the transfers: the flaw count - the sum over the districts of |seats held - seats due| -
       drops by exactly 2 with every seat transfer, which leaves the multipliers alone; a multiplier update leaves the seat
       matrix, hence the flaw count, alone.  At most flaw/2 transfers can happen; the number of consecutive multiplier
-      updates is not bounded here (Pukelsheim's argument: every update labels one more row or column) *)
+      updates is bounded in 7' (every update labels one more row or column) *)
 Theorem C07_transfer_progress : forall q votes pseats tgt dorder s s', (q < 1)%Q -> wf_votes votes -> NoDup dorder ->
   BInv q votes pseats s -> bstep q votes tgt dorder s = Next s' ->
   (flaw tgt dorder (b_res s') = flaw tgt dorder (b_res s) - 2 /\ b_rho s' = b_rho s /\ b_gamma s' = b_gamma s) \/
@@ -259,26 +374,223 @@ Proof. intros q votes pseats tgt dorder s s' Hq1 Hwf Hdo. exact (bstep_progress 
 Definition C07_termination_full_statement : Prop := forall d q k votes n tgt dorder,
   (0 <= q)%Q -> (q < 1)%Q -> (0 < k)%Q -> (forall z, d z == k * (inject_Z z + 1 - q))%Q ->
   wf_votes votes -> (forall i j, 0 <= mget votes i j) -> NoDup dorder ->
-  exists fuel, evaluate_core d q votes tgt dorder n fuel <> BP_out_of_fuel.
+  exists fuel, evaluate_core d q votes tgt dorder true n fuel <> BP_out_of_fuel.
+
+(* 7'. TERMINATION.  (a) What the labelling search computes: exactly the districts / parties reachable from the
+       over-represented districts along tied cells ([Reach]: a labelled district reaches a party through a cell that can
+       give a seat away, a labelled party reaches a district through a cell that can take one), whenever it ends without
+       touching an under-represented district (the case in which the multipliers are updated) *)
+Theorem C07_labelling_is_reachability : forall q quots res ps ds under over LD LP, NoDup over ->
+  labeled q ps ds quots res under over = Lab LD LP ->
+  sort_pos (filter (fun i => dmem LD i) under) = [] ->
+  NoDup (map fst LD) /\ NoDup (map fst LP) /\
+  (forall i, In i (map fst LD) <-> Reach q quots res (sort_pos ps) ds over (inl i)) /\
+  (forall p, In p (map fst LP) <-> Reach q quots res (sort_pos ps) ds over (inr p)).
+Proof.
+  intros q quots res ps ds under over LD LP Hov H Hn.
+  unfold labeled in H. change (map (fun i => (i, @None C)) over) with (LD0 over) in H.
+  destruct (lab_loop_spec q quots res (sort_pos ps) ds under over _ _ _ _ _ (LInv_init q quots res (sort_pos ps) ds over Hov) H) as [I Cl].
+  specialize (Cl (no_under_labelled LD under Hn)).
+  split; [apply (li_ndD _ _ _ _ _ _ _ _ I)|]. split; [apply (li_ndP _ _ _ _ _ _ _ _ I)|]. split.
+  - intros i. split; [apply (li_reachD _ _ _ _ _ _ _ _ I)|apply (closed_complete _ _ _ _ _ _ _ _ I Cl (inl i))].
+  - intros p. split; [apply (li_reachP _ _ _ _ _ _ _ _ I)|apply (closed_complete _ _ _ _ _ _ _ _ I Cl (inr p))].
+Qed.
+
+(* (b) the progress of a multiplier update: the accepted adjustment coefficient is attained at a cell, which the update puts
+       exactly on a signpost, while cells between two labelled lines keep their quotient - so every label survives and, if
+       the next iteration is an accepted update again, it labels strictly more lines (otherwise its coefficient would be
+       >= 1: a refusal).  At most |districts| + |parties| + 1 updates follow one another *)
+Theorem C07_update_progress : forall q votes pseats s under over LD LP a LD' LP' a',
+  (q < 1)%Q -> wf_votes votes -> BInv q votes pseats s -> NoDup over ->
+  labeled q (parties votes) (districts votes) (calc_quots votes (b_rho s) (b_gamma s)) (b_res s) under over = Lab LD LP ->
+  sort_pos (filter (fun i => dmem LD i) under) = [] ->
+  adj_coef q (calc_quots votes (b_rho s) (b_gamma s)) (b_res s) (map fst LD) (map fst LP) = Adj a ->
+  Qeq_bool a 0 || Qle_bool 1 a = false ->
+  let rho' := scale_rho_r (map fst LD) a (b_rho s) in
+  let gamma' := scale_gamma_r (map fst LP) a (b_gamma s) in
+  labeled q (parties votes) (districts votes) (calc_quots votes rho' gamma') (b_res s) under over = Lab LD' LP' ->
+  sort_pos (filter (fun i => dmem LD' i) under) = [] ->
+  adj_coef q (calc_quots votes rho' gamma') (b_res s) (map fst LD') (map fst LP') = Adj a' ->
+  Qeq_bool a' 0 || Qle_bool 1 a' = false ->
+  (length LD + length LP < length LD' + length LP')%nat /\
+  (length over <= length LD + length LP)%nat /\
+  (length LD' + length LP' <= length over + length (districts votes) + length (parties votes))%nat.
+Proof.
+  intros q votes pseats s under over LD LP a LD' LP' a' Hq1 Hwf I Hov El Hn Ha Hc rho' gamma' El' Hn' Ha' Hc'.
+  split; [exact (update_progress q Hq1 votes Hwf pseats s under over LD LP a LD' LP' a' I Hov El Hn Ha Hc El' Hn' Ha' Hc')|].
+  pose proof (labeled_count q votes _ _ _ _ _ _ Hov El) as [H1 _].
+  pose proof (labeled_count q votes _ _ _ _ _ _ Hov El') as [_ H2]. unfold K in H2. split; [exact H1|]. lia.
+Qed.
+
+(* (c) neither the labelling search nor the path walk exhausts its own fuel: an iteration never stops with the out-of-fuel
+       answer *)
+Theorem C07_step_never_out_of_fuel : forall q votes tgt dorder s, NoDup dorder ->
+  bstep q votes tgt dorder s <> Stop BP_out_of_fuel.
+Proof. intros q votes tgt dorder s Hdo. exact (bstep_fuel q votes tgt dorder Hdo s). Qed.
+
+(* (d) from ANY state satisfying the loop invariant the loop ends within (flaw / 2 + 1) * (|districts| + |parties| + 2)
+       iterations: with that much fuel the out-of-fuel answer is unreachable *)
+Theorem C07_loop_terminates : forall q votes pseats tgt dorder fuel s,
+  (0 <= q)%Q -> (q < 1)%Q -> wf_votes votes -> NoDup dorder -> BInv q votes pseats s ->
+  ((Z.to_nat (flaw tgt dorder (b_res s) / 2) + 1) * (length (districts votes) + length (parties votes) + 2) <= fuel)%nat ->
+  bloop q votes tgt dorder fuel s <> BP_out_of_fuel.
+Proof.
+  intros q votes pseats tgt dorder fuel s Hq0 Hq1 Hwf Hdo I Hf.
+  apply (bloop_terminates q Hq0 Hq1 votes Hwf pseats tgt dorder Hdo fuel s 0%nat I (upd_min_0 q votes tgt dorder Hdo s)); [lia|].
+  unfold K. nia.
+Qed.
+
+(* (e) the whole evaluate (the code as it stands: [strict] = true) terminates: [fuel_bound] = (flaw of the initial
+       solution / 2 + 1) * (|districts| + |parties| + 2) iterations suffice, for every vote matrix of non-negative integers,
+       every n (also negative), every target dictionary and every iteration order without repetition *)
+Theorem C07_terminates : forall d q k votes n tgt dorder fuel,
+  (0 <= q)%Q -> (q < 1)%Q -> (0 < k)%Q -> (forall z, d z == k * (inject_Z z + 1 - q))%Q ->
+  wf_votes votes -> (forall i j, 0 <= mget votes i j) -> NoDup dorder ->
+  (fuel_bound d q votes tgt dorder n <= fuel)%nat ->
+  evaluate_core d q votes tgt dorder true n fuel <> BP_out_of_fuel.
+Proof.
+  intros d q k votes n tgt dorder fuel Hq0 Hq1 Hk Hd Hwf Hv Hdo Hf.
+  exact (evaluate_core_terminates d q k Hq0 Hq1 Hk Hd votes Hwf Hv dorder Hdo true tgt n fuel (or_introl eq_refl) Hf).
+Qed.
+Theorem C07_total_terminates : forall d q k votes n dorder fuel,
+  (0 <= q)%Q -> (q < 1)%Q -> (0 < k)%Q -> (forall z, d z == k * (inject_Z z + 1 - q))%Q ->
+  wf_votes votes -> (forall i j, 0 <= mget votes i j) -> NoDup dorder ->
+  (fuel_bound_total d q votes dorder n <= fuel)%nat ->
+  evaluate_total d q votes true n dorder fuel <> BP_out_of_fuel.
+Proof.
+  intros d q k votes n dorder fuel Hq0 Hq1 Hk Hd Hwf Hv Hdo Hf.
+  exact (evaluate_total_terminates d q k Hq0 Hq1 Hk Hd votes Hwf Hv dorder Hdo true n fuel (or_introl eq_refl) Hf).
+Qed.
+(* ... so the termination clause, kept as a full statement until wave 6, is a theorem *)
+Theorem C07_termination : C07_termination_full_statement.
+Proof.
+  intros d q k votes n tgt dorder Hq0 Hq1 Hk Hd Hwf Hv Hdo. exists (fuel_bound d q votes tgt dorder n).
+  apply (C07_terminates d q k votes n tgt dorder _ Hq0 Hq1 Hk Hd Hwf Hv Hdo). apply le_n.
+Qed.
+
+(* 7''. NO KeyError (wave 6): with a target dictionary without foreign keys ([dorder] within the districts) the model of
+        evaluate never answers [BP_key_error] - the labelling search only reads rows of districts, the label dictionaries
+        point backwards (the party that labelled a district was labelled from a district of lower rank), so the path walk of
+        _augment_result pops every set once, visits no district twice and ends at an over-represented district, and every cell
+        that loses a seat on the way is stored; the initial solution has a row for every district
+        (Proofs/BipropNoKey_proofs.v).  No hypothesis on the invariant is needed. *)
+Theorem C07_no_key_error : forall d q k votes n tgt dorder strict fuel,
+  (q < 1)%Q -> (0 < k)%Q -> (forall z, d z == k * (inject_Z z + 1 - q))%Q ->
+  wf_votes votes -> (forall i j, 0 <= mget votes i j) -> NoDup dorder -> incl dorder (districts votes) ->
+  evaluate_core d q votes tgt dorder strict n fuel <> BP_key_error.
+Proof.
+  intros d q k votes n tgt dorder strict fuel Hq1 Hk Hd Hwf Hv Hdo Hdo2.
+  exact (evaluate_core_nokey d q k votes tgt dorder strict n fuel Hq1 Hk Hd Hwf Hv Hdo Hdo2).
+Qed.
+
+(* 7'''. TOTAL CORRECTNESS of the model of evaluate (the code as it stands), in one statement: with the fuel of C07_terminates,
+         for the two rounding rules the evaluator supports and a target dictionary over exactly the districts, the answer is
+           - a seat matrix certified by the final multipliers (both marginals, zero cells, every cell a rounding), or
+           - a refusal (VotingSystemError: no votes / invalid adjustment coefficient) and then NO seat matrix with the
+             marginals and empty cells where there are no votes exists, or
+           - the Tie / ValueError of the apportionment of the party seats, and then there is no tie-free party marginal
+             (outside the property's quantifier);
+         never a KeyError, a ZeroDivisionError, nor the out-of-fuel answer *)
+Theorem C07_total_correct : forall d q k votes n tgt dorder fuel,
+  (0 <= q)%Q -> (q < 1)%Q -> (q == 0 \/ q == 1 # 2)%Q -> (0 < k)%Q -> (forall z, d z == k * (inject_Z z + 1 - q))%Q ->
+  wf_votes votes -> (forall i j, 0 <= mget votes i j) -> 0 <= n ->
+  NoDup dorder -> incl (districts votes) dorder -> incl dorder (districts votes) ->
+  (fuel_bound d q votes tgt dorder n <= fuel)%nat ->
+  match evaluate_core d q votes tgt dorder true n fuel with
+  | BP_ok res rho gamma =>
+      exists pseats, ha_marginal d (party_totals votes) n = Some pseats /\
+        cert_ok d (districts votes) (parties votes) votes tgt pseats res (scale_k k rho) gamma = true /\
+        biprop_spec d (districts votes) (parties votes) votes tgt pseats res
+  | BP_no_votes =>
+      forall pseats, ha_marginal d (party_totals votes) n = Some pseats ->
+        forall dseats res, ~ biprop_spec d (districts votes) (parties votes) votes dseats pseats res
+  | BP_refused a =>
+      exists pseats, ha_marginal d (party_totals votes) n = Some pseats /\
+        forall res, ~ biprop_spec d (districts votes) (parties votes) votes tgt pseats res
+  | BP_party_tie | BP_value_error => ha_marginal d (party_totals votes) n = None
+  | BP_zero_division | BP_key_error | BP_district_tie | BP_out_of_fuel => False
+  end.
+Proof.
+  intros d q k votes n tgt dorder fuel Hq0 Hq1 Hq Hk Hd Hwf Hv Hn Hdo Hdo1 Hdo2 Hf.
+  assert (Hd0 : (0 < d 0%Z)%Q) by (rewrite Hd; change (inject_Z 0) with 0%Q; nra).
+  destruct (evaluate_core d q votes tgt dorder true n fuel) as [res rho gamma|a| | | | | | |] eqn:E.
+  - exact (C07_evaluate_partial_correct d q k votes n tgt dorder fuel res rho gamma Hq0 Hq1 Hk Hd Hwf Hv Hn Hdo1 E).
+  - destruct (C07_refusal_justified d q k votes n tgt dorder fuel a Hq0 Hq1 Hq Hk Hd Hwf Hv Hn Hdo Hdo1 Hdo2 E) as (pseats & Hp & _ & Hinf).
+    exists pseats. split; [exact Hp|exact Hinf].
+  - exact (evaluate_core_no_zerodiv d q k votes tgt dorder true n fuel Hq0 Hq1 Hk Hd Hwf Hv Hn (or_introl eq_refl) E).
+  - exact (C07_no_key_error d q k votes n tgt dorder true fuel Hq1 Hk Hd Hwf Hv Hdo Hdo2 E).
+  - apply (evaluate_core_marginal_errors d q votes tgt dorder true n fuel Hd0). left. exact E.
+  - apply (evaluate_core_marginal_errors d q votes tgt dorder true n fuel Hd0). right. exact E.
+  - exact (evaluate_core_no_district_tie d q votes tgt dorder true n fuel E).
+  - intros pseats Hp. apply (C07_no_votes_refusal_justified d q k votes n pseats Hq0 Hq1 Hk Hd Hv Hn); [|exact Hp].
+    apply (proj1 (proj1 (C07_no_votes_refusal d q votes tgt dorder n fuel)) E).
+  - exact (C07_terminates d q k votes n tgt dorder fuel Hq0 Hq1 Hk Hd Hwf Hv Hdo Hf E).
+Qed.
+
+(* ... and with the seats given as a total (districts apportioned by the same HighestAverages model) *)
+Theorem C07_total_correct_seats_total : forall d q k votes n dorder fuel,
+  (0 <= q)%Q -> (q < 1)%Q -> (q == 0 \/ q == 1 # 2)%Q -> (0 < k)%Q -> (forall z, d z == k * (inject_Z z + 1 - q))%Q ->
+  wf_votes votes -> (forall i j, 0 <= mget votes i j) -> 0 <= n ->
+  NoDup dorder -> incl (districts votes) dorder -> incl dorder (districts votes) ->
+  (fuel_bound_total d q votes dorder n <= fuel)%nat ->
+  match evaluate_total d q votes true n dorder fuel with
+  | BP_ok res rho gamma =>
+      exists pseats dseats, ha_marginal d (party_totals votes) n = Some pseats /\
+        ha_marginal d (district_totals votes) n = Some dseats /\
+        cert_ok d (districts votes) (parties votes) votes dseats pseats res (scale_k k rho) gamma = true /\
+        biprop_spec d (districts votes) (parties votes) votes dseats pseats res
+  | BP_no_votes =>
+      forall pseats, ha_marginal d (party_totals votes) n = Some pseats ->
+        forall dseats res, ~ biprop_spec d (districts votes) (parties votes) votes dseats pseats res
+  | BP_refused a =>
+      exists pseats dseats, ha_marginal d (party_totals votes) n = Some pseats /\
+        ha_marginal d (district_totals votes) n = Some dseats /\
+        forall res, ~ biprop_spec d (districts votes) (parties votes) votes dseats pseats res
+  | BP_party_tie | BP_value_error | BP_district_tie =>
+      ha_marginal d (party_totals votes) n = None \/ ha_marginal d (district_totals votes) n = None
+  | BP_zero_division | BP_key_error | BP_out_of_fuel => False
+  end.
+Proof.
+  intros d q k votes n dorder fuel Hq0 Hq1 Hq Hk Hd Hwf Hv Hn Hdo Hdo1 Hdo2 Hf.
+  pose proof (fun tgt f Hb => C07_total_correct d q k votes n tgt dorder f Hq0 Hq1 Hq Hk Hd Hwf Hv Hn Hdo Hdo1 Hdo2 Hb) as TC.
+  unfold evaluate_total. unfold fuel_bound_total in Hf.
+  destruct (refuses_empty votes true) eqn:Er.
+  - specialize (TC [] (fuel_bound d q votes [] dorder n) (le_n _)). unfold evaluate_core in TC. rewrite Er in TC. exact TC.
+  - destruct (binit d q votes n) as [e|s] eqn:Ei.
+    + specialize (TC [] fuel). unfold evaluate_core, fuel_bound in TC. rewrite Er, Ei in TC. specialize (TC (Nat.le_0_l _)).
+      destruct e; try exact TC; try (left; exact TC);
+        exfalso; unfold binit in Ei; destruct (initial_solution d votes n); discriminate.
+    + destruct (evaluate d (district_totals votes) n [] []) as [tgt [t|]|] eqn:Et.
+      * right. unfold ha_marginal. rewrite Et. reflexivity.
+      * specialize (TC tgt fuel Hf).
+        assert (Hds : ha_marginal d (district_totals votes) n = Some tgt) by (unfold ha_marginal; rewrite Et; reflexivity).
+        destruct (evaluate_core d q votes tgt dorder true n fuel) as [res rho gamma|a| | | | | | |]; try exact TC; try (left; exact TC); try (exfalso; exact TC).
+        -- destruct TC as (pseats & Hp & Hc & Hs). exists pseats, tgt. auto.
+        -- destruct TC as (pseats & Hp & Hinf). exists pseats, tgt. auto.
+      * right. unfold ha_marginal. rewrite Et. reflexivity.
+Qed.
 
 (* 8. what the wire unit 105 runs (one pass that returns the trace and the outcome) IS the model of the theorems above *)
-Theorem C07_unit_runs_the_model : forall d q votes tgt dorder n fuel,
-  snd (run_core d q votes tgt dorder n fuel) = evaluate_core d q votes tgt dorder n fuel /\
-  snd (run_total d q votes n dorder fuel) = evaluate_total d q votes n dorder fuel /\
-  fst (run_core d q votes tgt dorder n fuel) =
+Theorem C07_unit_runs_the_model : forall d q votes tgt dorder strict n fuel,
+  snd (run_core d q votes tgt dorder strict n fuel) = evaluate_core d q votes tgt dorder strict n fuel /\
+  snd (run_total d q votes strict n dorder fuel) = evaluate_total d q votes strict n dorder fuel /\
+  fst (run_core d q votes tgt dorder strict n fuel) =
+    if refuses_empty votes strict then [] else
     match binit d q votes n with inr s => btrace q votes tgt dorder fuel s | inl _ => [] end.
 Proof.
-  intros d q votes tgt dorder n fuel. destruct (run_core_spec d q votes tgt dorder n fuel) as [H1 H2].
+  intros d q votes tgt dorder strict n fuel. destruct (run_core_spec d q votes tgt dorder strict n fuel) as [H1 H2].
   split; [exact H1|]. split; [apply run_total_spec|exact H2].
 Qed.
 
-(* the hypothesis "some vote is positive" cannot be dropped: on a matrix without a single vote the faithful model (like
-   the implementation: known finding C07-all-zero) returns a matrix with a seat in a cell without votes *)
+(* the PINNED tree ([strict] = false; finding C07-all-zero, repaired by fixes/C07-all-zero.diff): on a matrix without a single
+   vote it returned a matrix with a seat in a cell without votes - for it the hypothesis "some vote is positive" of
+   C07_evaluate_pinned_partial_correct cannot be dropped.  The code as it stands refuses that election. *)
 Definition zero_votes : mat := [(1%positive, [(1%positive, 0)]); (2%positive, [(1%positive, 0)])].
 Theorem C07_all_zero_refuted : exists votes tgt res rho gamma,
-  evaluate_core d_hondt 0 votes tgt [1%positive; 2%positive] 1 5 = BP_ok res rho gamma /\
+  evaluate_core d_hondt 0 votes tgt [1%positive; 2%positive] false 1 5 = BP_ok res rho gamma /\
   wf_votes votes /\ (forall i j, mget votes i j = 0) /\
-  entries_ok votes res = false.
+  entries_ok votes res = false /\
+  evaluate_core d_hondt 0 votes tgt [1%positive; 2%positive] true 1 5 = BP_no_votes.
 Proof.
   exists zero_votes, [(1%positive, 1)]. eexists. eexists. eexists.
   split; [vm_compute; reflexivity|]. split; [|split].
@@ -288,7 +600,7 @@ Proof.
     destruct (dget zero_votes i) as [r|] eqn:E; [|reflexivity].
     destruct (dget r j) as [z|] eqn:E2; [|reflexivity]. apply dget_In in E. apply dget_In in E2.
     destruct E as [E|[E|[]]]; injection E as <- <-; destruct E2 as [E2|[]]; injection E2 as <- <-; reflexivity.
-  - vm_compute. reflexivity.
+  - split; vm_compute; reflexivity.
 Qed.
 
 (* ---- non-vacuity ---- *)
@@ -315,9 +627,9 @@ Proof. vm_compute. reflexivity. Qed.
    after one seat transfer (D'Hondt, 5 seats) *)
 Example C07_example_hypotheses :
   wf_votes ex_votes /\ (forall i j, 0 <= mget ex_votes i j) /\ (exists i j, 0 < mget ex_votes i j) /\
-  incl (districts ex_votes) [1%positive; 2%positive].
+  incl (districts ex_votes) [1%positive; 2%positive] /\ has_votes ex_votes = true.
 Proof.
-  split; [|split; [|split]].
+  split; [|split; [|split; [|split; [|reflexivity]]]].
   - split; [repeat constructor; simpl; intuition discriminate|].
     intros row [<-|[<-|[]]]; simpl; repeat constructor; simpl; intuition discriminate.
   - intros i j. unfold mget, dget_or.
@@ -328,13 +640,37 @@ Proof.
   - intros x H. exact H.
 Qed.
 Example C07_example_whole_loop :
-  evaluate_total d_hondt 0 ex_votes 5 [1%positive; 2%positive] 10
+  evaluate_total d_hondt 0 ex_votes true 5 [1%positive; 2%positive] 10
   = BP_ok [(1%positive, [(2%positive, 2)]); (2%positive, [(1%positive, 3)])]
           [(1%positive, 1); (2%positive, 1)]%Q [(1%positive, 1 # 10); (2%positive, 1 # 8)]%Q /\
   length (btrace 0 ex_votes [(2%positive, 3); (1%positive, 2)] [1%positive; 2%positive] 10
             (mk_bstate [(1%positive, [(1%positive, 1); (2%positive, 2)]); (2%positive, [(1%positive, 2)])]
                        [(1%positive, 1); (2%positive, 1)]%Q [(1%positive, 1 # 10); (2%positive, 1 # 8)]%Q)) = 2%nat.
 Proof. vm_compute. split; reflexivity. Qed.
+
+(* the fuel bound of the termination theorem on the example: (2 / 2 + 1) * (2 + 2 + 2) = 12 iterations suffice (the run takes 2) *)
+Example C07_example_fuel_bound :
+  fuel_bound d_hondt 0 ex_votes [(2%positive, 3); (1%positive, 2)] [1%positive; 2%positive] 5 = 12%nat /\
+  fuel_bound_total d_hondt 0 ex_votes [1%positive; 2%positive] 5 = 12%nat /\
+  NoDup [1%positive; 2%positive].
+Proof. split; [vm_compute; reflexivity|]. split; [vm_compute; reflexivity|]. repeat constructor; simpl; intuition discriminate. Qed.
+
+(* the refusal theorem C07_refusal_justified is not vacuous: a district without votes that is due a seat - the model (like the
+   code: VotingSystemError "invalid adjustment coefficient 0" after two transfers' worth of updates) refuses, the party
+   marginal is tie-free, the iteration order lists exactly the districts *)
+Definition empty_district_votes : mat :=
+  [(1%positive, [(1%positive, 10); (2%positive, 20)]); (2%positive, [(1%positive, 0); (2%positive, 0)])].
+Example C07_example_refused :
+  evaluate_core d_hondt 0 empty_district_votes [(1%positive, 2); (2%positive, 1)] [1%positive; 2%positive] true 3 20 = BP_refused 0 /\
+  ha_marginal d_hondt (party_totals empty_district_votes) 3 = Some [(2%positive, 2); (1%positive, 1)] /\
+  districts empty_district_votes = [1%positive; 2%positive].
+Proof. vm_compute. repeat split. Qed.
+
+(* the refusal theorems are not vacuous: a matrix without votes whose party marginal is tie-free, refused by the model *)
+Example C07_example_no_votes :
+  has_votes zero_votes = false /\ ha_marginal d_hondt (party_totals zero_votes) 1 = Some [(1%positive, 1)] /\
+  evaluate_total d_hondt 0 zero_votes true 1 [1%positive; 2%positive] 5 = BP_no_votes.
+Proof. vm_compute. repeat split. Qed.
 
 Print Assumptions C07_cert_sound.
 Print Assumptions C07_cert_complete.
@@ -349,6 +685,8 @@ Print Assumptions C07_units.
 Print Assumptions C07_feasible_ref_sound.
 Print Assumptions C07_cut_sound.
 Print Assumptions C07_matrix_ok_reflect.
+Print Assumptions C07_feasible_ref_complete.
+Print Assumptions C07_feasible_ref_decides.
 Print Assumptions C07_row_divisor_apportionment.
 Print Assumptions C07_row_is_highest_averages.
 Print Assumptions C07_index_covers_support.
@@ -358,8 +696,24 @@ Print Assumptions C07_loop_partial_correct.
 Print Assumptions C07_initial_state_invariant.
 Print Assumptions C07_evaluate_partial_correct.
 Print Assumptions C07_evaluate_total_partial_correct.
+Print Assumptions C07_evaluate_pinned_partial_correct.
+Print Assumptions C07_no_votes_refusal.
+Print Assumptions C07_no_votes_refusal_justified.
+Print Assumptions C07_refusal_justified.
+Print Assumptions C07_total_refusal_justified.
+Print Assumptions C07_step_refusal_justified.
 Print Assumptions C07_d_hondt_partial_correct.
 Print Assumptions C07_sainte_lague_partial_correct.
 Print Assumptions C07_all_zero_refuted.
 Print Assumptions C07_transfer_progress.
+Print Assumptions C07_labelling_is_reachability.
+Print Assumptions C07_update_progress.
+Print Assumptions C07_step_never_out_of_fuel.
+Print Assumptions C07_loop_terminates.
+Print Assumptions C07_terminates.
+Print Assumptions C07_total_terminates.
+Print Assumptions C07_termination.
+Print Assumptions C07_no_key_error.
+Print Assumptions C07_total_correct.
+Print Assumptions C07_total_correct_seats_total.
 Print Assumptions C07_unit_runs_the_model.
